@@ -9,7 +9,9 @@ LEVEL = "exploration"
 SIDECARS = ["contracts.arch", "contracts.mapping_c17"]
 TARGETS = ["Architecture.__init__", "Mapping.__init__"]
 TECHNIQUE = ("bounded: strings derived from the five grammars within a size bound (and near-miss strings) through the "
-             "real public parsers, read back by an independent extractor")
+             "real public parsers, read back by an independent extractor; contracts (SMT) only for the post-grammar code: "
+             "per-visit lemma of Architecture.__init__ (N+1 instance count), per-entry lemma of Mapping.__init__ "
+             "(directives reach the parser as written)")
 EXPLANATION = (
     "Acceptance is decided by lark's Earley parser over grammar string literals: there is no teaal function whose "
     "body decides it, so no contract within reach expresses the grammar half; it is served by a BOUNDED check. "
